@@ -52,6 +52,8 @@ def make_symbolic(I, kind, name):
             return Opaque('object', name)
         if kind == 'opaque_str':
             return Opaque('str', name)
+        if kind == 'opaque_list':
+            return Opaque('list', name)
         raise OutOfFragment("unknown kind %r" % kind)
     tag = kind[0]
     if tag == 'const':
@@ -59,6 +61,9 @@ def make_symbolic(I, kind, name):
         if isinstance(v, str) and v[:2] in ('T:', 'E:'):
             import kmip.core.enums as _en
             return getattr(_en.Types, v[2:]) if v[0] == 'T' else getattr(_en, v[2:])
+        if isinstance(v, str) and v[:2] == 'K:':
+            import kmip.pie.objects as _po
+            return getattr(_po, v[2:])
         return v
     if tag == 'enum':
         cls = _resolve_class(kind[1])
@@ -121,6 +126,18 @@ def make_symbolic(I, kind, name):
         return [make_symbolic(I, kind[1], "%s[%d]" % (name, i)) for i in range(lens[k])]
     if tag == 'tuple':
         return tuple(make_symbolic(I, k, "%s[%d]" % (name, i)) for i, k in enumerate(kind[1:]))
+    if tag == 'engine':
+        from . import dbmodel
+        return dbmodel.make_engine(I, name, *kind[1:])
+    if tag == 'managed':
+        from . import dbmodel
+        classes = kind[1] if len(kind) > 1 else None
+        if classes:
+            cs = [_resolve_class(c) for c in classes]
+            cls = cs[P.choose(len(cs), "managed-class")]
+        else:
+            cls = dbmodel.choose_stored_class(I, "managed-class")
+        return dbmodel.new_managed(I, cls, name)
     if tag == 'opaque_facts':
         return Opaque('object', kind[1], facts=set(kind[2]))
     if tag == 'model':
@@ -293,6 +310,10 @@ def prove_contract(session, c, max_paths=4000, time_budget=None, known=()):
             body_locals[name] = spec_locals[name]
         try:
             result = I.run_body(ex, None, None, pre_bound=body_locals)
+        except pyvc.PathEnd:
+            # end of one arbitrary loop iteration: the events of the body are checked too
+            _check_traces(I, c, key, 'iteration', None)
+            raise
         except pyvc.Raised as r:
             _check_raise(I, c, ex, r.exc, spec_locals, old, heap0, args, dict(when_vals))
             _check_traces(I, c, key, 'raise', r.exc)
@@ -363,7 +384,10 @@ def _check_traces(I, c, key, outcome, exc):
     for (name, fn) in getattr(c, 'traces_', []):
         try:
             import inspect as _insp
-            if len(_insp.signature(fn).parameters) >= 4:
+            npar = len(_insp.signature(fn).parameters)
+            if npar >= 5:
+                r = fn(I.path.trace, outcome, exc, I.path, I)
+            elif npar >= 4:
                 r = fn(I.path.trace, outcome, exc, I.path)
             else:
                 r = fn(I.path.trace, outcome, exc)
@@ -497,6 +521,8 @@ def apply_contract(I, c, ex, args, kwargs):
     srcs = [s for _, s in c.ensures_] + [e for (_, _, e, _) in c.raises_] + [w for (_, w, _, _) in c.raises_]
     old = I.snapshot_old(srcs, loc, G, ex.cls)
     P.event('call', qn)
+    for fn in getattr(c, 'effects_', []):
+        fn(P, loc)
     # exceptional outcomes
     for (ename, when, ens, rname) in c.raises_:
         cls = resolve_exc_class(ename, ex.module)
@@ -515,7 +541,17 @@ def apply_contract(I, c, ex, args, kwargs):
             if ens:
                 l2 = dict(loc)
                 l2['raised'] = e
-                P.assume(I.truth(I.eval_spec(ens, l2, G, old, ex.cls)))
+                node = parse_expr(ens)
+                if isinstance(node, ast.Compare) and len(node.ops) == 1 and isinstance(node.ops[0], ast.Eq) \
+                        and ast.unparse(node.left) == 'str(raised)':
+                    # the message text is given by the clause: bind it (keeps its template structure)
+                    e2 = pyvc.Env(l2, G, ex.cls, '<spec>', None)
+                    e2.spec, e2.old = True, old
+                    e.args = (I.eval(node.comparators[0], e2),)
+                    if 'message' in e.fields:
+                        e.fields['message'] = e.args[0]
+                else:
+                    P.assume(I.truth(I.eval_spec(ens, l2, G, old, ex.cls)))
             for ev in getattr(c, 'raise_emits_', {}).get(rname, []):
                 P.event(*ev)
             _havoc_on_raise(I, c, loc)
